@@ -345,6 +345,8 @@ def main(tier):
     c05_skip.inner_gate_rule(gprog, chk, "C05j", ("src/",), 25)
     # C05w: a selection switch and the activity test are combined with the polarity used everywhere else
     c05_skip.selection_switch_rule(gprog, chk, "C05w", ("src/",), 25)
+    # C05u: a column handed to an aggregate (ranks, mean, extrema) is fetched with the selection
+    c05_skip.aggregate_selection_rule(gprog, chk, "C05u", 10)
     # C05n: a mean over the defined / active samples is divided by the count of those samples (sum and counter behind the same guards)
     c05_skip.guard_agreement_rule(gprog, chk, "C05n", ("src/",), 25, accepted={
         ("dbStatisticsVariables", "metal", "neff"): "Q (metal quantity) and B (conventional benefit) of the selectivity statistics are by definition the quantity above the cutoff relative to ALL the defined values",
